@@ -583,7 +583,24 @@ fn cmd_emit_crate(m: &BTreeMap<String, String>) {
             let (ni, di) = req::lex(&r.item).map(|t| req::size_and_depth(&t)).unwrap_or((0, 0));
             // deeply nested types: rustc's own analysis of e.g. `Box<dyn Fn(Box<dyn Fn(..` 40 deep
             // does not finish in minutes, whatever the macro generated
-            if na + ni > max_tokens || da.max(di) > 14 {
+            // generic nesting (`X<X<X<..>>>`) does not show as token-tree depth
+            let angle = |t: &str| -> usize {
+                let (mut d, mut m) = (0usize, 0usize);
+                let b = t.as_bytes();
+                for (i, c) in b.iter().enumerate() {
+                    match c {
+                        b'<' => {
+                            d += 1;
+                            m = m.max(d);
+                        }
+                        b'>' if i > 0 && (b[i - 1] == b'-' || b[i - 1] == b'=') => {}
+                        b'>' => d = d.saturating_sub(1),
+                        _ => {}
+                    }
+                }
+                m
+            };
+            if na + ni > max_tokens || da.max(di) > 14 || angle(&r.item).max(angle(&r.attr)) > 8 {
                 skipped_big += 1;
                 continue;
             }
